@@ -17,7 +17,8 @@ ASSUMPTIONS = ["std::collections::HashMap finds an entry iff its key hashes like
 canon = wire.canon_rterr
 
 KEYS = ([wire.i(x) for x in (0, 1, -1, 2, 255, (1 << 53), (1 << 53) + 1, wire.I64_MAX, wire.I64_MIN)] +
-        [wire.d(x) for x in (0.0, -0.0, 1.0, -1.0, 2.0, 1.5, 255.0, float(1 << 53), float("nan"), float("inf"), 9.223372036854775807e18)] +
+        [wire.d(x) for x in (0.0, -0.0, 1.0, -1.0, 2.0, 1.5, 255.0, float(1 << 53), float("nan"), float("inf"), 9.223372036854775807e18,
+                             0.3, 0.1 + 0.2, 0.8, 0.1 + 0.7, 1.0000000000000002, 1e19, 2e19, -1e19, 5e-324, 1e-320)] +
         [wire.b(x) for x in (0, 1, 255)] + [wire.c(x) for x in ("\0", "a", "1", "é")] +
         [wire.s(x) for x in ("", "a", "1", "é", "ab")] + [wire.TRUE, wire.FALSE, wire.NULL, "B:len", "B:puts"] +
         [wire.a(), wire.a(wire.i(1)), wire.a(wire.d(1.0)), wire.a(wire.i(1), wire.s("a")), wire.a(wire.d(1.0), wire.s("a")),
